@@ -40,6 +40,57 @@ def is_pow2(fr):
     return (n & (n - 1)) == 0 and (d & (d - 1)) == 0 and (n == 1 or d == 1)
 
 
+def ref_pdict(tree):
+    """REFERENCE decomposition of a point tree: what the Point algebra of /repo is specified to return (the Python
+    twin of Model/Func.v [pt] = Terms.compileP): + and - merge and prune, unary -, scalar * and / rescale every entry
+    without pruning.  Ordered list of (leaf id, Fraction).  The oracle bookkeeping (and its model, whose points are
+    these dictionaries) is entitled to assume that a Point object has exactly this decomposition."""
+    tree = detuple(tree)
+    h = tree[0]
+    F = to_fraction
+
+    def merge(a, b):
+        out = [[k, v] for k, v in a]
+        idx = {k: i for i, (k, _) in enumerate(out)}
+        for k, v in b:
+            if k in idx:
+                out[idx[k]][1] += v
+            else:
+                idx[k] = len(out)
+                out.append([k, v])
+        return [(k, v) for k, v in out]
+
+    def prune(a):
+        return [(k, v) for k, v in a if v != 0]
+
+    def scale(c, a):
+        return [(k, v * c) for k, v in a]
+    if h == "PZero":
+        return []
+    if h == "PVar":
+        return [(tree[1], Fraction(1))]
+    if h == "PAdd":
+        return prune(merge(ref_pdict(tree[1]), ref_pdict(tree[2])))
+    if h == "PSub":
+        return prune(merge(ref_pdict(tree[1]), scale(Fraction(-1), ref_pdict(tree[2]))))
+    if h == "PNeg":
+        return scale(Fraction(-1), ref_pdict(tree[1]))
+    if h == "PScalL":
+        return scale(F(tree[1]), ref_pdict(tree[2]))
+    if h == "PScalR":
+        return scale(F(tree[2]), ref_pdict(tree[1]))
+    if h == "PDiv":
+        return scale(F(1 / tree[2]), ref_pdict(tree[1]))
+    raise ValueError(h)
+
+
+def coq_pterm(tree):
+    tree = detuple(tree)
+    if tree == ("PZero",):
+        return "(PSub (PVar 0%nat) (PVar 0%nat))"          # the empty decomposition
+    return T.coq_term(tree)
+
+
 class World(object):
     """one PEP()-fresh universe of real PEPit objects.
     repair: a set of "prune-weights" (prune a composite's weights right after construction),
@@ -57,6 +108,7 @@ class World(object):
         self.repair = frozenset(repair)
         self.funcs = []
         self.fmap = T.IdMap()
+        self.point_problem = None
 
     # ---------------------------------------------------------------- object construction
     def leaf_points(self):
@@ -152,11 +204,37 @@ class World(object):
         self.fmap.add(f, len(self.funcs))
         self.funcs.append(f)
 
-    def _query(self, tree):
+    def check_point(self, tree, p, f=None, role="query"):
+        """what the bookkeeping (and its model) is entitled to assume of a Point that reaches oracle / gradient /
+        value / add_point: its decomposition is the reference one of what was written (in particular it is pruned
+        whenever the reference is: after any + or -), so that the lookup by the raw dictionary agrees with the
+        lookup by the pruned one.  The first failure is kept in self.point_problem."""
+        from PEPit import Point
+        from PEPit.tools.dict_operations import prune_dict
+        if self.point_problem is not None:
+            return
+        got = [(k, v.v) for k, v in self.dump_p(p)]
+        want = ref_pdict(tree)
+        if got != want:
+            self.point_problem = dict(clause="P0", role=role, tree=tree, decomposition=got, reference=want,
+                                      why="a Point handed to the oracle bookkeeping does not have the decomposition the "
+                                          "Point algebra is specified to give it (not in pruned normal form)")
+            return
+        if f is not None and all(v != 0 for _, v in want):
+            twin = Point(is_leaf=False, decomposition_dict=prune_dict(p.decomposition_dict))
+            a, b = f._is_already_evaluated_on_point(p), f._is_already_evaluated_on_point(twin)
+            if (a is None) != (b is None) or (a is not None and a[0] is not b[0]):
+                self.point_problem = dict(clause="P1", role=role, tree=tree, decomposition=got,
+                                          why="lookup by the raw dictionary and by the pruned dictionary disagree")
+
+    def _query(self, tree, f=None):
         from PEPit.tools.dict_operations import prune_dict
         p = self.build_point(tree)
-        if "prune-queries" in self.repair and not p.get_is_leaf():
-            p.decomposition_dict = prune_dict(p.decomposition_dict)
+        if "prune-queries" in self.repair:
+            if not p.get_is_leaf():
+                p.decomposition_dict = prune_dict(p.decomposition_dict)
+        else:
+            self.check_point(tree, p, f)
         return p
 
     def scoped(self, op):
@@ -217,8 +295,8 @@ class World(object):
                                        "true" if op[2] else "false"), []
         if k in ("Oracle", "Gradient", "Value"):
             f = self.funcs[op[1]]
-            p = self._query(op[2])
-            lit = "(%s %s %s)" % (k, coq_nat(op[1]), coq_pdict(self.dump_p(p)))
+            p = self._query(op[2], f)
+            lit = "(%s %s %s)" % (k, coq_nat(op[1]), coq_pterm(op[2]))
             if k == "Oracle":
                 g, v = f.oracle(p)
                 return lit, [self.dump_p(g), self.dump_e(v)]
@@ -241,7 +319,9 @@ class World(object):
             x = self.build_point(op[2])
             g = self.build_point(op[3])
             v = self.build_expr(op[4])
-            lit = "(AddPoint %s %s %s %s)" % (coq_nat(op[1]), coq_pdict(self.dump_p(x)), coq_pdict(self.dump_p(g)),
+            self.check_point(op[2], x, None, "add_point x")
+            self.check_point(op[3], g, None, "add_point g")
+            lit = "(AddPoint %s %s %s %s)" % (coq_nat(op[1]), coq_pterm(op[2]), coq_pterm(op[3]),
                                                coq_edict(self.dump_e(v)))
             f.add_point((x, g, v))
             return lit, []
@@ -356,7 +436,10 @@ def plain(o):
 
 
 def check_inv(state, val, world=None, max_combos=200000):
-    """C07's invariant on a dumped state.  Returns None or a dict naming the violated clause."""
+    """C07's invariant on a dumped state (preceded by the normal-form check of the Points that reached the
+    bookkeeping, World.check_point).  Returns None or a dict naming the violated clause."""
+    if world is not None and world.point_problem is not None:
+        return dict(world.point_problem)
     npt, nex, funs = plain(state)
     for fi, (leaf, reuse, w, pts, stat) in enumerate(funs):
         groups = {}
